@@ -72,13 +72,13 @@ def bounds(tier, seed):
             'field_menu': FIELD_OPS, 'deviation_bound_on_layout': 1 if tier == 'quick' else 2}
 
 
-FIELD_OPS = ['-1', '+1', 'x2', '/2', '0', 'far']
+FIELD_OPS = ['-1', '+1', 'x2', '/2', '0', 'far', '-2', '-3', '-5', '+2', '+7']
 # a rewritten $TOT / $PAR / $PnB of another digit count shifts the later segments: these offsets change as a consequence
 SHIFTED = ('$BEGINDATA', '$ENDDATA', '$BEGINSTEXT', '$ENDSTEXT', '$BEGINANALYSIS', '$ENDANALYSIS')
 
 
 def op_apply(v, op, far):
-    return {'-1': v - 1, '+1': v + 1, 'x2': v * 2, '/2': v // 2, '0': 0, 'far': far}[op]
+    return {'-1': v - 1, '+1': v + 1, 'x2': v * 2, '/2': v // 2, '0': 0, 'far': far, '-2': v - 2, '-3': v - 3, '-5': v - 5, '+2': v + 2, '+7': v + 7}[op]
 
 
 def load(path):
@@ -207,7 +207,9 @@ def patch_field(buf, info, field, op, lay):
     else:
         j = int(field[2:-1]) - 1
         v = lay['bits'][j]
-        nv = {'-1': v - 8, '+1': v + 8, 'x2': v * 2, '/2': v // 2, '0': 0, 'far': 4096}[op]
+        nv = {'-1': v - 8, '+1': v + 8, 'x2': v * 2, '/2': v // 2, '0': 0, 'far': 4096}.get(op)
+        if nv is None:
+            return None
         if nv == v:
             return None
         return rebuild_with_declared_bits(dict(lay), j, nv), (field,) + SHIFTED
